@@ -671,4 +671,7 @@ var spec = run.Spec[Case]{ID: "C08", Name: "bounds", Gen: genCase, Prop: prop, C
 
 func TestPropBounds(t *testing.T) { run.Generated(t, spec) }
 func TestRegress(t *testing.T)    { run.Regress(t, spec) }
-func TestReplay(t *testing.T)     { run.ReplayOne(t, spec) }
+func TestReplay(t *testing.T) {
+	run.ReplayOne(t, spec)
+	run.ReplayOne(t, concSpec)
+}
